@@ -527,19 +527,28 @@ Qed.
 End Names.
 
 Section Lower.
-Variable o : toracles.
-(* ------------------------------------------------------------------ lower-casing *)
-Variable Hlow_dot : forall a b, to_lower o (a ++ 46 :: b) = to_lower o a ++ 46 :: to_lower o b.
-Variable Hlow_nodot : forall a, nodot a -> nodot (to_lower o a).
 
-Lemma lower_joinb : forall ls, to_lower o (joinb 46 ls) = joinb 46 (map (to_lower o) ls).
+(* toLowerASCII: compositional at '.', adds no '.' *)
+Lemma ascii_lower_46 : forall c, c <> 46 -> ascii_lower c <> 46.
+Proof. intros c H. unfold ascii_lower. destruct ((65 <=? c) && (c <=? 90)) eqn:E; lia. Qed.
+
+Lemma Hlow_dot : forall a b, to_lower (a ++ 46 :: b) = to_lower a ++ 46 :: to_lower b.
+Proof. intros. unfold to_lower. rewrite map_app. reflexivity. Qed.
+
+Lemma Hlow_nodot : forall a, nodot a -> nodot (to_lower a).
+Proof.
+  intros a H. apply nodot_Forall. apply nodot_Forall in H. unfold to_lower. apply Forall_map.
+  eapply Forall_impl; [|exact H]. intros c Hc. apply ascii_lower_46. exact Hc.
+Qed.
+
+Lemma lower_joinb : forall ls, to_lower (joinb 46 ls) = joinb 46 (map to_lower ls).
 Proof.
   induction ls as [|x t IH]; [reflexivity|]. destruct t as [|y t']; [reflexivity|].
   change (joinb 46 (x :: y :: t')) with (x ++ 46 :: joinb 46 (y :: t')).
   rewrite Hlow_dot, IH. reflexivity.
 Qed.
 
-Lemma labels_lower : forall d, labels (to_lower o d) = map (to_lower o) (labels d).
+Lemma labels_lower : forall d, labels (to_lower d) = map to_lower (labels d).
 Proof.
   intros d. rewrite <- (join_labels d) at 1. rewrite lower_joinb. apply labels_join.
   - pose proof (labels_ne d). destruct (labels d); [congruence|discriminate].
@@ -549,46 +558,46 @@ Qed.
 Lemma flat_map_map : forall {A B C} (f : A -> B) (g : B -> list C) l, flat_map g (map f l) = flat_map (fun x => g (f x)) l.
 Proof. induction l; [reflexivity|]. cbn [map flat_map]. rewrite IHl. reflexivity. Qed.
 
-Lemma putdom_lower_nn : forall d, putdom (to_lower o (nn d)) = putdom (to_lower o d).
+Lemma putdom_lower_nn : forall d, putdom (to_lower (nn d)) = putdom (to_lower d).
 Proof.
-  intros d. unfold putdom. fold (labels (to_lower o (nn d))). fold (labels (to_lower o d)).
+  intros d. unfold putdom. fold (labels (to_lower (nn d))). fold (labels (to_lower d)).
   rewrite !labels_lower, !flat_map_map.
   rewrite <- (flat_map_ne _ (labels (nn d))) by reflexivity.
   rewrite <- (flat_map_ne _ (labels d)) by reflexivity.
   fold (ne_labels (nn d)). fold (ne_labels d). rewrite ne_labels_nn. reflexivity.
 Qed.
 
-Lemma putrevdom_lower_nn : forall d, putrevdom (to_lower o (nn d)) = putrevdom (to_lower o d).
+Lemma putrevdom_lower_nn : forall d, putrevdom (to_lower (nn d)) = putrevdom (to_lower d).
 Proof.
-  intros d. unfold putrevdom. fold (labels (to_lower o (nn d))). fold (labels (to_lower o d)).
+  intros d. unfold putrevdom. fold (labels (to_lower (nn d))). fold (labels (to_lower d)).
   rewrite !labels_lower, <- !map_rev, !flat_map_map.
   rewrite <- (flat_map_rev_ne _ (labels (nn d))) by reflexivity.
   rewrite <- (flat_map_rev_ne _ (labels d)) by reflexivity.
   fold (ne_labels (nn d)). fold (ne_labels d). rewrite ne_labels_nn. reflexivity.
 Qed.
 
-Lemma key_nn : forall v2 d lo, domainkey o v2 (nn d) lo = domainkey o v2 d lo.
+Lemma key_nn : forall v2 d lo, domainkey v2 (nn d) lo = domainkey v2 d lo.
 Proof. intros. unfold domainkey. rewrite putdom_lower_nn, putrevdom_lower_nn. reflexivity. Qed.
 
-Lemma putdom_lower_ne : forall x y, ne_labels x = ne_labels y -> putdom (to_lower o x) = putdom (to_lower o y).
+Lemma putdom_lower_ne : forall x y, ne_labels x = ne_labels y -> putdom (to_lower x) = putdom (to_lower y).
 Proof.
-  intros x y E. unfold putdom. fold (labels (to_lower o x)). fold (labels (to_lower o y)).
+  intros x y E. unfold putdom. fold (labels (to_lower x)). fold (labels (to_lower y)).
   rewrite !labels_lower, !flat_map_map.
   rewrite <- (flat_map_ne _ (labels x)) by reflexivity.
   rewrite <- (flat_map_ne _ (labels y)) by reflexivity.
   fold (ne_labels x). fold (ne_labels y). rewrite E. reflexivity.
 Qed.
 
-Lemma putrevdom_lower_ne : forall x y, ne_labels x = ne_labels y -> putrevdom (to_lower o x) = putrevdom (to_lower o y).
+Lemma putrevdom_lower_ne : forall x y, ne_labels x = ne_labels y -> putrevdom (to_lower x) = putrevdom (to_lower y).
 Proof.
-  intros x y E. unfold putrevdom. fold (labels (to_lower o x)). fold (labels (to_lower o y)).
+  intros x y E. unfold putrevdom. fold (labels (to_lower x)). fold (labels (to_lower y)).
   rewrite !labels_lower, <- !map_rev, !flat_map_map.
   rewrite <- (flat_map_rev_ne _ (labels x)) by reflexivity.
   rewrite <- (flat_map_rev_ne _ (labels y)) by reflexivity.
   fold (ne_labels x). fold (ne_labels y). rewrite E. reflexivity.
 Qed.
 
-Lemma mapkey_nn : forall v2 m d, is_wild (nn d) = is_wild d -> mapkey o v2 m (nn d) = mapkey o v2 m d.
+Lemma mapkey_nn : forall v2 m d, is_wild (nn d) = is_wild d -> mapkey v2 m (nn d) = mapkey v2 m d.
 Proof.
   intros v2 m d E. unfold mapkey. rewrite E. destruct (is_wild d) eqn:W.
   - rewrite (putdom_lower_ne _ _ (skipn2_nn_wild d W E)), (putrevdom_lower_ne _ _ (skipn2_nn_wild d W E)). reflexivity.
